@@ -164,7 +164,7 @@ Cases ==
           /\ (o.o \in {"not", "and", "in"} => o.casted)}
      \cup [fn : {"arraysize", "flatten"}, doc : {j}, path : {p}]
      : p \in PathsOf(j)} : j \in 1..Len(Docs)}
-  \cup {o \in [fn : {"objcons"}, pairs : SeqsUpTo({<<"a", "one">>, <<"b", "null">>, <<"c", "sx">>, <<"d", "true">>, <<"e", "pnn">>, <<"f", "iffc">>}, 3), keep : BOOLEAN] :
+  \cup {o \in [fn : {"objcons"}, pairs : SeqsUpTo({<<"a", "one">>, <<"b", "null">>, <<"c", "sx">>, <<"d", "true">>, <<"e", "pnn">>, <<"f", "iffc">>, <<"g", "null">>}, 3), keep : BOOLEAN] :
           \A x, y \in 1..Len(o.pairs) : x # y => o.pairs[x][1] # o.pairs[y][1]}
   \cup [fn : {"arrcons"}, elems : SeqsUpTo({"one", "two", "sx"}, 2), form : {"function", "literal"}]
   \cup [fn : {"split"}, parts : {<<"a">>, <<"a", "b">>, <<"a", "", "b">>}, sep : {"comma", "blank", "commablank", "twoblanks"}]
